@@ -677,3 +677,17 @@ func verifLemma_C11_point_references(path Reference, rel Reference, p, pa, ar, r
 	verifrt.Assert(len(got.Paths) == 1 && got.Paths[0] == path, "paths")
 	verifrt.Assert(len(got.Relations) == 1 && got.Relations[0] == rel, "relations")
 }
+
+// The exported Unmarshal entry points of the area geometries report the bytes they
+// consumed (bounded: one polygon boundary, two path references / one lat-lng polygon).
+func verifLemma_C11_area_geometry_references(p1, p2, p3 Reference, primary TypeAndNamespace) {
+	verifrt.Assume(p1.Value < 32 && p2.Value < 32 && p3.Value < 32 && p1.TypeAndNamespace < 64 && p2.TypeAndNamespace < 64 && p3.TypeAndNamespace < 64 && primary < 64)
+	var buffer [64]byte
+	in := AreaGeometryReferences{Polygons: []int{1, 2}, Paths: References{p1, p2, p3}}
+	n := in.Marshal(primary, buffer[0:])
+	var got AreaGeometryReferences
+	m := got.Unmarshal(primary, buffer[0:])
+	verifrt.Assert(m == n, "consumes-what-was-written")
+	verifrt.Assert(len(got.Polygons) == 2 && got.Polygons[0] == 1 && got.Polygons[1] == 2, "polygon-boundaries")
+	verifrt.Assert(len(got.Paths) == 3 && got.Paths[0] == p1 && got.Paths[1] == p2 && got.Paths[2] == p3, "paths")
+}
